@@ -34,6 +34,9 @@ pub struct Matrix {
     pub near_threshold: bool,
     pub unmatched_weight: f64,
     pub weight_margin: f64,
+    /// pairs decided close to (but outside the margin of) a gate
+    pub close_above: u64,
+    pub close_below: u64,
 }
 
 /// own implementation of the constraint table: sort by gap, a gap configured twice
@@ -52,6 +55,7 @@ pub fn limit_for(table: &Option<Vec<(usize, f32)>>, gap: usize) -> Option<f64> {
 
 pub fn build_matrix(cfg: &TrkCfg, dets: &[BoxF], tracks: &[RTrack], use_table: bool) -> Matrix {
     let mut near = false;
+    let (mut close_above, mut close_below) = (0u64, 0u64);
     let (unmatched, wm) = match cfg.metric {
         PosMetric::IoU(t) => (t as f64, DELTA_W_IOU),
         PosMetric::Maha => (1.0, DELTA_D2 / (cfg.min_conf.max(0.01) as f64)),
@@ -88,6 +92,9 @@ pub fn build_matrix(cfg: &TrkCfg, dets: &[BoxF], tracks: &[RTrack], use_table: b
                     if (v - thr as f64).abs() < DELTA_W_IOU {
                         near = true;
                     }
+                    if (v - thr as f64).abs() < 0.05 {
+                        if v >= thr as f64 { close_above += 1 } else { close_below += 1 }
+                    }
                     if v >= thr as f64 {
                         row.push(Pair::Open(v));
                     } else {
@@ -98,6 +105,9 @@ pub fn build_matrix(cfg: &TrkCfg, dets: &[BoxF], tracks: &[RTrack], use_table: b
                     let d2 = t.kf.as_ref().map(|k| k.distance(d)).unwrap_or(f64::INFINITY);
                     if (d2 - CHI2_GATE).abs() < DELTA_D2 {
                         near = true;
+                    }
+                    if (d2 - CHI2_GATE).abs() < 2.0 {
+                        if d2 <= CHI2_GATE { close_above += 1 } else { close_below += 1 }
                     }
                     if d2 <= CHI2_GATE {
                         row.push(Pair::Open((CHI2_UPPER - d2) / conf));
@@ -114,6 +124,8 @@ pub fn build_matrix(cfg: &TrkCfg, dets: &[BoxF], tracks: &[RTrack], use_table: b
         near_threshold: near,
         unmatched_weight: unmatched,
         weight_margin: wm,
+        close_above,
+        close_below,
     }
 }
 
